@@ -206,6 +206,16 @@ def generate(rng, tier):
             again = [dict(o) for o in ops if o['op'] == 'run_obj']
             ops.append({'op': 'setenv', 'environ': env2['environ'], 'argv': env2['argv']})
             ops += again[:3]
+    if defaults and rng.random() < 0.3:
+        # default options also govern the implicit example the native runner builds for a
+        # function without a docstring that takes no arguments
+        (zdt, zpid), = gen.add_zero_funcs(rng, world['modules'][0], 1)
+        if rng.random() < 0.5:
+            ops.append({'op': 'runner', 'target': 'simpkg/m0.py', 'command': 'z0', 'verbose': rng.choice([0, 1, 3]),
+                        'config': {'default_runtime_state': dict(defaults)}})
+        else:
+            opt = ','.join(('+' if v else '-') + k for k, v in sorted(defaults.items()))
+            ops.append({'op': 'cli', 'argv': ['PATH:simpkg/m0.py', 'z0', '--verbose=%d' % rng.choice([0, 1, 3]), '--options=' + opt]})
     return {'profile': ID, 'world': world, 'ops': ops, 'plan': [], 'env': env, 'twin_of': twin_of}
 
 
